@@ -21,6 +21,7 @@ SetOfSets(seq) == { ToSet(seq[i]) : i \in DOMAIN seq }
 SeqOfSets(seq) == [ i \in DOMAIN seq |-> ToSet(seq[i]) ]
 
 Clause(name, ok, info) == IF ok THEN TRUE ELSE PrintT(<<"REJECT", name, Rec.id, info>>)
+Stat(name) == PrintT(<<"STAT", name, 1>>)
 
 ObsAngles(kind) == { [name |-> SeqOfSets(a.name), target |-> ToSet(a.target), frame |-> SeqOfSets(a.frame)] :
                      a \in { Rec.angles[i] : i \in { j \in DOMAIN Rec.angles : Rec.angles[j].kind = kind } } }
@@ -50,6 +51,22 @@ TopologyStep ==
   /\ Clause("topology-identifier", SetOfSets(Rec.topo_id) = TopoId(T), <<Rec.topo_id, TopoId(T)>>)
   /\ \A i \in DOMAIN Rec.opposite :
         Clause("opposite-helicity-state", (Rec.opposite[i][2] = 1) = IsOpposite(T, ToSet(Rec.opposite[i][1])), Rec.opposite[i])
+  \* the tree operators of ampform.helicity.decay (attached final state, parent, sibling, chain of ancestors), edge by edge
+  /\ \A i \in DOMAIN Rec.treeops :
+        LET o == Rec.treeops[i]  S == ToSet(o.s) IN
+        /\ Clause("attached-final-state-sorted", o.attached = SortedSeq(S), o.attached)
+        /\ Clause("parent-state", ToSet(o.parent) = (IF S = Root(T) THEN {} ELSE Parent(T, S)), <<S, o.parent>>)
+        /\ Clause("sibling-state", ToSet(o.sibling) = (IF S = Root(T) THEN {} ELSE CHOOSE C \in Kids(T, Parent(T, S)) : C # S), <<S, o.sibling>>)
+        /\ Clause("decay-chain-ids", SeqOfSets(o.chain) = <<S>> \o Chain(T, S) \o (IF S = Root(T) THEN <<>> ELSE <<Root(T)>>), <<S, o.chain>>)
+  \* three-body: the spectator is the final state attached to the root node, the decay products are the other two (sorted)
+  /\ \A i \in DOMAIN Rec.three :
+        LET o == Rec.three[i]
+            spect == CHOOSE C \in Kids(T, Root(T)) : Cardinality(C) = 1
+            pair == CHOOSE C \in Kids(T, Root(T)) : Cardinality(C) = 2 IN
+        /\ Stat("three-body-spectator")
+        /\ Clause("spectator-and-decay-products", o.err = "" /\ {o.spectator} = spect /\ o.products = SortedSeq(pair), o)
+        /\ Clause("relabel-shifts-every-id-by-one",
+                  SetOfSets(o.relabelled_tree) = Relabel(T, [j \in Root(T) |-> j + 1]) /\ o.relabelled_initial = <<0>>, o)
   \* compute_boost_chain(i): successive pure boosts into the rest frames of the ancestors of final state i
   \* (outermost first, the initial state excluded) and finally of i itself, each momentum taken in the frame
   \* reached so far
